@@ -69,12 +69,11 @@ func (s aesGcmSpec) build(variant string, id uint32) (*Info, error) {
 		return nil, err
 	}
 	i.Key = k
-	i.Lossy = s.ivSize != 12 || s.tagSize != 16
-	switch {
-	case s.keySize == 24:
+	// The AesGcmKey proto has no IV / tag size: the serializer refuses other sizes, aesgcm.NewAEAD
+	// refuses them too, and the factory's key-manager fallback needs the serialization.
+	i.NoSerialization = s.ivSize != 12 || s.tagSize != 16
+	if s.keySize == 24 || i.NoSerialization {
 		i.Usable, i.FailsAt = false, FailsAtFactory
-	case i.Lossy:
-		i.Usable, i.FailsAt = false, FailsAtConstructor
 	}
 	i.Secrets = secrets(s.key)
 	i.Fields["key_size"], i.Fields["iv_size"], i.Fields["tag_size"], i.Fields["key_value"] = s.keySize, s.ivSize, s.tagSize, clone(s.key)
